@@ -31,8 +31,9 @@ VARIABLES s, k, done, res
 vars == <<s, k, done, res>>
 
 KQuickConfigs ==
-  {[alpha |-> {"a", "c", "g", "t"}, n |-> 6, ks |-> {2, 3, 4, 5}],
-   [alpha |-> {"a", "t", "n"},      n |-> 7, ks |-> {2, 3}],
+  {[alpha |-> {"a", "c", "g", "t"}, n |-> 6, ks |-> {2, 4}],
+   [alpha |-> {"a", "c", "g", "t"}, n |-> 5, ks |-> {3, 5}],
+   [alpha |-> {"a", "t", "n"},      n |-> 6, ks |-> {2, 3}],
    [alpha |-> {"c", "u", "r"},      n |-> 5, ks |-> {2, 3, 4}]}
 KThoroughConfigs ==
   {[alpha |-> {"a", "c", "g", "t"}, n |-> 8, ks |-> {2, 3, 4, 5}],
